@@ -5,7 +5,9 @@ use std::io::Read;
 
 pub fn from_reader(reader: &mut impl Read) -> (Game<String, String>, f64) {
     let mut buff = String::new();
-    reader.read_to_string(&mut buff).unwrap();
+    reader.read_to_string(&mut buff).expect(
+        "couldn't read the input as utf-8 text, so couldn't parse any known format : https://github.com/erikbrinkman/cfr#auto-error",
+    );
     if let Ok(res) = json::from_str(&buff) {
         res
     } else if let Ok(res) = gambit::from_str(&buff) {
